@@ -69,15 +69,15 @@ const (
 
 // OCSPSingle describes one SingleResponse.
 type OCSPSingle struct {
-	Serial       *big.Int
-	Status       int
-	RevokedAt    time.Time
-	Reason       int
-	ThisUpdate   time.Time
-	NextUpdate   time.Time // zero = absent
-	Invalidity   time.Time // zero = none (non-critical invalidity-date single extension)
-	CriticalExt  bool      // unknown critical single extension
-	NonCritExt   bool
+	Serial      *big.Int
+	Status      int
+	RevokedAt   time.Time
+	Reason      int
+	ThisUpdate  time.Time
+	NextUpdate  time.Time // zero = absent
+	Invalidity  time.Time // zero = none (non-critical invalidity-date single extension)
+	CriticalExt bool      // unknown critical single extension
+	NonCritExt  bool
 }
 
 // OCSPSpec describes a successful (status 0) OCSP response.
